@@ -177,6 +177,37 @@ def check_state(ctx, main, label, log):
                 return f'section of diameter {p.diameter} does not use the edited slurry at its own diameter', 'sections'
         elif hasattr(p, 'slurry') and p.slurry is not s:
             return 'a pump does not use the edited slurry', 'sections'
+    # the System tab's minimum-friction and operating-point boxes show the values of the pipeline that is selected NOW (checked after a pipeline or unit
+    # selection and on the event after it; the searches behind them are the expensive part of a session)
+    recent = [l for l in log[-2:] if l.startswith(('pipeline', 'units'))] or label.startswith(('pipeline', 'units'))
+    if recent:
+        try:
+            ST_ = main.SystemTab
+            opcol = main.sys_tab.child.children[2].children[1]
+            shown = [w.value for w in opcol.children[2].children[:3]] + [w.value for w in opcol.children[5].children[:4]]
+            fl_ = [pl.pipesections[-1].flow(v) for v in pl.slurry.vls_list]
+            qi_ = pl.qimin(fl_)
+            uc_ = ST_.unit_convs
+            want_ = [f'{qi_ * uc_["flow"]:0.2f}', f'{pl.pipesections[-1].velocity(qi_) * uc_["len"]:0.1f}', f'{pl.calc_system_head(qi_)[0] * uc_["len"]:0.1f}']
+            try:
+                qo_ = pl.find_operating_point(fl_)
+                want_ += [f'{qo_ * uc_["flow"]:0.2f}', f'{pl.pipesections[-1].velocity(qo_) * uc_["len"]:0.1f}', f'{pl.calc_system_head(qo_)[0] * uc_["len"]:0.1f}',
+                          f'{pl.slurry.Cvi * qo_ * 60 * 60 * uc_["vol"]:0.0f}']
+            except Exception as e_:   # noqa
+                want_ += ['None'] * 4 if type(e_).__name__ == 'OperatingPointError' else [f'<{type(e_).__name__}>'] * 4
+
+            def near(a_, b_):
+                if a_ == b_:
+                    return True
+                try:
+                    dec_ = len(b_.split('.')[1]) if '.' in b_ else 0
+                    return abs(float(a_) - float(b_)) <= 1.5 * 10 ** (-dec_) + 1e-3 * abs(float(b_))
+                except ValueError:
+                    return False
+            if isinstance(shown, list) and len(shown) == 7 and all(isinstance(x_, str) for x_ in shown) and not all(near(a_, b_) for a_, b_ in zip(shown, want_)):
+                return (f'System tab boxes (minimum-friction Q, v, H; operating point Q, v, H, production) show {shown} while the selected pipeline {pl.name!r} has {want_}'), 'system-boxes'
+        except (AttributeError, IndexError, TypeError):
+            pass        # the panel layout is not what this oracle navigates: nothing is concluded from it
     # unit displays: the selected system's constants must be the exact conversions (0.2 %)
     ST = main.SystemTab
     us = main.unit_picker.label.startswith('US')
